@@ -194,3 +194,226 @@ Proof.
   pose proof (plain_all_turns _ _ Hp Hne He) as Hlen.
   eapply Nat.le_trans; [apply (turns_answer_syncs _ ts t_init Hp eq_refl Hok Hlen) | apply readies_firstn_le].
 Qed.
+
+(* ---------- exactly one ReadyForQuery per Sync, for EVERY stream ---------- *)
+Lemma turn_step_copy_stays : forall s f t, t_copy s = true -> turn_step s f t = s.
+Proof. intros s f t H. unfold turn_step. destruct (t_ok s); cbn [negb]; [rewrite H|]; reflexivity. Qed.
+
+Lemma turn_fold_copy_stays : forall fs ts s, t_copy s = true -> turn_fold s fs ts = s.
+Proof.
+  induction fs as [|f fs IH]; intros ts s H; [destruct ts; reflexivity|].
+  destruct ts as [|t ts]; [reflexivity|]. cbn [turn_fold]. rewrite (turn_step_copy_stays s f t H). apply IH; exact H.
+Qed.
+
+Lemma turn_fold_nocopy_back : forall fs ts s, t_copy (turn_fold s fs ts) = false -> t_copy s = false.
+Proof.
+  intros fs ts s H. destruct (t_copy s) eqn:E; [|reflexivity].
+  rewrite (turn_fold_copy_stays fs ts s E) in H. congruence.
+Qed.
+
+(* the accepted turn of a Sync (no COPY in progress): exactly one ReadyForQuery *)
+Lemma sync_turn : forall s body t,
+  t_ok s = true -> t_copy s = false -> t_ok (turn_step s (FMsg x53 body) t) = true -> readies t = 1%nat.
+Proof.
+  intros s body t Hok Hc H.
+  destruct (plain_turn s (FMsg x53 body) t eq_refl Hok Hc H) as [_ Hs]. exact (Hs eq_refl).
+Qed.
+
+Theorem sync_turns_one_ready : forall fs ts s,
+  t_ok (turn_fold s fs ts) = true -> t_copy (turn_fold s fs ts) = false ->
+  forall i f t, nth_error fs i = Some f -> nth_error ts i = Some t -> is_sync_frame f = true -> readies t = 1%nat.
+Proof.
+  induction fs as [|f0 fs IH]; intros ts s Hok Hc i f t Hf Ht Hs; [destruct i; discriminate|].
+  destruct ts as [|t0 ts]; [destruct i; discriminate|].
+  cbn [turn_fold] in Hok, Hc.
+  pose proof (turn_fold_ok_back _ _ _ Hok) as Hok1.
+  pose proof (turn_step_ok_back _ _ _ Hok1) as Hok0.
+  pose proof (turn_fold_nocopy_back _ _ _ Hc) as Hc1.
+  assert (Hc0 : t_copy s = false).
+  { destruct (t_copy s) eqn:E; [|reflexivity]. rewrite (turn_step_copy_stays s f0 t0 E) in Hc1. congruence. }
+  destruct i as [|i].
+  - cbn [nth_error] in Hf, Ht. injection Hf as <-. injection Ht as <-.
+    destruct f0 as [ty body | | | ]; cbn [is_sync_frame] in Hs; try discriminate.
+    apply Byte.byte_dec_bl in Hs. subst ty. eapply sync_turn; eassumption.
+  - cbn [nth_error] in Hf, Ht. eapply IH; eassumption.
+Qed.
+
+(* for a whole log the oracle accepts (sessions whose handlers use no COPY: the verdict's COPY flag is off) *)
+Theorem oracle_turns_one_ready_per_sync : forall sc log st ts,
+  oracle_turns sc log = true -> t_copy (turn_verdict sc log) = false -> turns log = st :: ts ->
+  forall i f t, nth_error (client_frames sc) i = Some f -> nth_error ts i = Some t -> is_sync_frame f = true ->
+  readies t = 1%nat.
+Proof.
+  intros sc log st ts Ho Hc Ht i f t Hf Hti Hs.
+  unfold oracle_turns in Ho. apply Bool.andb_true_iff in Ho. destruct Ho as [Ho _].
+  apply Bool.andb_true_iff in Ho. destruct Ho as [_ Hok].
+  unfold turn_verdict in *. rewrite Ht in *.
+  eapply sync_turns_one_ready; eassumption.
+Qed.
+
+(* the model: no COPY flag in the verdict of a case whose handlers use no COPY *)
+Theorem turn_verdict_nocopy_model sc :
+  case_nocopy sc = true ->
+  (forall v after rest, start (cfg_of_case sc) (sc_raw sc) = Some (v, after, rest) -> v <> version_ssl) ->
+  t_copy (turn_verdict sc (run_case sc)) = false.
+Proof.
+  intros Hn Hssl.
+  assert (V : verdict_ok (client_frames sc) (run_case sc)).
+  { unfold run_case, serve.
+    destruct (start (cfg_of_case sc) (sc_raw sc)) as [[[v after] rest]|] eqn:Es; [|apply (verdict_short _ []); reflexivity].
+    destruct (v =? version_cancel); [apply (verdict_short _ []); reflexivity|].
+    destruct (Z.eqb_spec v version_ssl) as [->|_]; [exfalso; eapply Hssl; eauto|].
+    apply session_turns; [apply case_cfg_nocopy; exact Hn|apply case_text_safe|].
+    intros cparams aevs s' _ Hauth. eapply case_frames; eauto. }
+  destruct V as [V1 V2]. unfold turn_verdict.
+  destruct (turns (run_case sc)) as [|t0 ts]; [contradiction|].
+  destruct V2 as (V2 & V3 & V4). exact V3.
+Qed.
+
+(* exactly one ReadyForQuery per Sync, in the Sync's own turn: the model's log of every scriptable case without COPY
+   handlers, whatever else the stream contains *)
+Theorem model_one_ready_per_sync : forall sc st ts,
+  case_nocopy sc = true ->
+  (forall v after rest, start (cfg_of_case sc) (sc_raw sc) = Some (v, after, rest) -> v <> version_ssl) ->
+  turns (run_case sc) = st :: ts ->
+  forall i f t, nth_error (client_frames sc) i = Some f -> nth_error ts i = Some t -> is_sync_frame f = true ->
+  readies t = 1%nat.
+Proof.
+  intros sc st ts Hn Hs Ht.
+  exact (oracle_turns_one_ready_per_sync sc (run_case sc) st ts (oracle_turns_model_auth sc Hn Hs)
+           (turn_verdict_nocopy_model sc Hn Hs) Ht).
+Qed.
+
+(* ---------- ... and none in the turn of any other extended-protocol message ---------- *)
+Definition ext_frame (f : frame) : bool :=
+  match f with
+  | FMsg t _ => is_ext t && wf_client f
+  | FOver t _ None => is_ext t
+  | FBad t _ => is_ext t
+  | _ => false
+  end.
+
+Lemma shape_one_no_ready : forall p ms, shape_one p ms = true -> (forall m, p m = true -> is_ready m = false) ->
+  filter is_ready ms = [].
+Proof.
+  intros p [|m [|m' r]] H Hp; cbn [shape_one] in H; try discriminate.
+  cbn [filter]. rewrite (Hp _ H). reflexivity.
+Qed.
+
+Lemma shape_execute_no_ready : forall ms, shape_execute ms = true -> filter is_ready ms = [].
+Proof.
+  induction ms as [|m ms IH]; intros H; [reflexivity|].
+  destruct m; cbn [shape_execute] in H; try discriminate; cbn [filter is_ready];
+    try (apply IH; exact H).
+  - (* CommandComplete: last, or followed by one ErrorResponse *)
+    destruct ms as [|m2 ms2]; [reflexivity|]. destruct m2; try discriminate.
+    destruct ms2; [reflexivity|discriminate].
+  - (* ErrorResponse: last *)
+    destruct ms; [reflexivity|discriminate].
+Qed.
+
+Ltac beq :=
+  repeat match goal with
+  | H : context [Byte.eqb ?a ?b] |- _ =>
+      let v := eval vm_compute in (Byte.eqb a b) in
+      match v with true => idtac | false => idtac end; change (Byte.eqb a b) with v in H
+  | |- context [Byte.eqb ?a ?b] =>
+      let v := eval vm_compute in (Byte.eqb a b) in
+      match v with true => idtac | false => idtac end; change (Byte.eqb a b) with v
+  end.
+
+Ltac one_no_ready H :=
+  erewrite shape_one_no_ready; [reflexivity | exact H | intros m Hm; destruct m; try discriminate; reflexivity].
+
+Lemma ext_turn : forall s f t,
+  ext_frame f = true -> t_ok s = true -> t_copy s = false -> t_ok (turn_step s f t) = true -> readies t = 0%nat.
+Proof.
+  intros s f t He Hok Hc H.
+  unfold turn_step in H. rewrite Hok in H. cbn [negb] in H. rewrite Hc in H.
+  unfold readies. rewrite <- (outs_filter_closed t).
+  set (evs := filter (fun e => negb (is_closed_ev e)) t) in *.
+  destruct f as [ty body | ty size [e|] | ty size | ]; cbn [ext_frame] in He; try discriminate.
+  - apply Bool.andb_true_iff in He. destruct He as [Hx Hwf].
+    cbn [frame_type] in H. rewrite Hwf in H. cbn [negb] in H.
+    unfold is_ext in Hx.
+    assert (Hcases : ty = x50 \/ ty = x42 \/ ty = x44 \/ ty = x45 \/ ty = x43 \/ ty = x48).
+    { repeat (apply Bool.orb_true_iff in Hx; destruct Hx as [Hx | Hx]);
+        apply Byte.byte_dec_bl in Hx; subst ty; tauto. }
+    destruct (t_discard s) eqn:Ed.
+    + (* skipping: the turn is silent *)
+      assert (Hd : negb (Byte.eqb ty x53) && negb (Byte.eqb ty x58) = true)
+        by (destruct Hcases as [-> | [-> | [-> | [-> | [-> | ->]]]]]; reflexivity).
+      cbn [andb] in H. rewrite Hd in H. cbn [t_ok] in H. destruct evs; [reflexivity | discriminate].
+    + cbn [andb] in H.
+      destruct Hcases as [-> | [-> | [-> | [-> | [-> | ->]]]]]; beq; cbn [t_ok] in H.
+      * apply Bool.orb_true_iff in H. destruct H as [H | H]; one_no_ready H.
+      * apply Bool.andb_true_iff in H. destruct H as [H _].
+        apply Bool.orb_true_iff in H. destruct H as [H | H]; one_no_ready H.
+      * apply Bool.andb_true_iff in H. destruct H as [H _].
+        destruct body as [|k body']; [discriminate|].
+        destruct (Byte.eqb k x53).
+        { apply Bool.orb_true_iff in H. destruct H as [H | H]; [|one_no_ready H].
+          destruct (outs evs) as [|a [|b [|c r]]]; try discriminate.
+          apply Bool.andb_true_iff in H. destruct H as [Ha Hb].
+          destruct a; try discriminate. destruct b; try discriminate; reflexivity. }
+        destruct (Byte.eqb k x50).
+        { apply Bool.orb_true_iff in H. destruct H as [H | H]; one_no_ready H. }
+        one_no_ready H.
+      * rewrite (shape_execute_no_ready _ H). reflexivity.
+      * apply Bool.andb_true_iff in H. destruct H as [H _].
+        apply Bool.orb_true_iff in H. destruct H as [H | H]; one_no_ready H.
+      * destruct evs; [reflexivity | discriminate].
+  - cbn [frame_type] in H.
+    destruct (t_discard s && negb (Byte.eqb ty x53)) eqn:E1.
+    + cbn [t_ok] in H. destruct evs; [reflexivity | discriminate].
+    + rewrite He in H. cbn [t_ok] in H.
+      apply Bool.andb_true_iff in H. destruct H as [H _]. apply Bool.andb_true_iff in H. destruct H as [H _].
+      one_no_ready H.
+  - cbn [frame_type] in H.
+    destruct (t_discard s && negb (Byte.eqb ty x53)) eqn:E1.
+    + cbn [t_ok] in H. destruct evs; [reflexivity | discriminate].
+    + rewrite He in H. cbn [t_ok] in H.
+      apply Bool.andb_true_iff in H. destruct H as [H _]. apply Bool.andb_true_iff in H. destruct H as [H _].
+      one_no_ready H.
+Qed.
+
+Theorem ext_turns_no_ready : forall fs ts s,
+  t_ok (turn_fold s fs ts) = true -> t_copy (turn_fold s fs ts) = false ->
+  forall i f t, nth_error fs i = Some f -> nth_error ts i = Some t -> ext_frame f = true -> readies t = 0%nat.
+Proof.
+  induction fs as [|f0 fs IH]; intros ts s Hok Hc i f t Hf Ht Hs; [destruct i; discriminate|].
+  destruct ts as [|t0 ts]; [destruct i; discriminate|].
+  cbn [turn_fold] in Hok, Hc.
+  pose proof (turn_fold_ok_back _ _ _ Hok) as Hok1.
+  pose proof (turn_step_ok_back _ _ _ Hok1) as Hok0.
+  pose proof (turn_fold_nocopy_back _ _ _ Hc) as Hc1.
+  assert (Hc0 : t_copy s = false).
+  { destruct (t_copy s) eqn:E; [|reflexivity]. rewrite (turn_step_copy_stays s f0 t0 E) in Hc1. congruence. }
+  destruct i as [|i].
+  - cbn [nth_error] in Hf, Ht. injection Hf as <-. injection Ht as <-. eapply ext_turn; eassumption.
+  - cbn [nth_error] in Hf, Ht. eapply IH; eassumption.
+Qed.
+
+Theorem oracle_turns_no_ready_for_extended : forall sc log st ts,
+  oracle_turns sc log = true -> t_copy (turn_verdict sc log) = false -> turns log = st :: ts ->
+  forall i f t, nth_error (client_frames sc) i = Some f -> nth_error ts i = Some t -> ext_frame f = true ->
+  readies t = 0%nat.
+Proof.
+  intros sc log st ts Ho Hc Ht i f t Hf Hti Hs.
+  unfold oracle_turns in Ho. apply Bool.andb_true_iff in Ho. destruct Ho as [Ho _].
+  apply Bool.andb_true_iff in Ho. destruct Ho as [_ Hok].
+  unfold turn_verdict in *. rewrite Ht in *.
+  eapply ext_turns_no_ready; eassumption.
+Qed.
+
+Theorem model_no_ready_for_extended : forall sc st ts,
+  case_nocopy sc = true ->
+  (forall v after rest, start (cfg_of_case sc) (sc_raw sc) = Some (v, after, rest) -> v <> version_ssl) ->
+  turns (run_case sc) = st :: ts ->
+  forall i f t, nth_error (client_frames sc) i = Some f -> nth_error ts i = Some t -> ext_frame f = true ->
+  readies t = 0%nat.
+Proof.
+  intros sc st ts Hn Hs Ht.
+  exact (oracle_turns_no_ready_for_extended sc (run_case sc) st ts (oracle_turns_model_auth sc Hn Hs)
+           (turn_verdict_nocopy_model sc Hn Hs) Ht).
+Qed.
